@@ -18,6 +18,7 @@ import (
 // on exit around c.Next(); one request per route is served and the log compared with the expected onion.
 
 type regStmt struct {
+	Common bool     `json:"common"`
 	Op     string   `json:"op"`
 	Prefix []string `json:"prefix"`
 	Path   []string `json:"path"`
@@ -51,6 +52,36 @@ type regExec struct {
 	routes []*rux.Route
 	useCtl bool
 	trace  *traceWriter
+	// shared != nil: every statement's middleware is a sub-slice (with spare capacity) of ONE caller-owned list, the
+	// way an application passes mws[:k]... ; the router must not write into the caller's list
+	shared []rux.HandlerFunc
+	offs   map[int]int
+	common []rux.HandlerFunc // the application's own middleware list <<0,1>>..<<0,3>>; groups may get common[:n]...
+}
+
+func (x *regExec) commonList() []rux.HandlerFunc {
+	if x.common == nil {
+		x.common = []rux.HandlerFunc{x.handler(0, 1), x.handler(0, 2), x.handler(0, 3)}
+	}
+	return x.common
+}
+
+// callerListIntact: the router must never write into the list the application passed (as common[:n]...)
+func (x *regExec) callerListIntact() (bool, string) {
+	if x.common == nil {
+		return true, ""
+	}
+	save := *x.log
+	defer func() { *x.log = save }()
+	for i, h := range x.common {
+		*x.log = [][]any{}
+		h(&rux.Context{})
+		l := *x.log
+		if len(l) == 0 || l[0][1] != 0 || l[0][2] != i+1 {
+			return false, fmt.Sprintf("element %d of the application's middleware list is now handler %v", i, l)
+		}
+	}
+	return true, ""
 }
 
 func (x *regExec) handler(pos, idx int) rux.HandlerFunc {
@@ -62,6 +93,10 @@ func (x *regExec) handler(pos, idx int) rux.HandlerFunc {
 }
 
 func (x *regExec) mws(pos, n int) []rux.HandlerFunc {
+	if x.shared != nil {
+		off := x.offs[pos]
+		return x.shared[off : off+n]
+	}
 	out := make([]rux.HandlerFunc, n)
 	for i := range out {
 		out[i] = x.handler(pos, i+1)
@@ -78,6 +113,7 @@ func (x *regExec) run(prog []regStmt, i int) int {
 			ev := map[string]any{"op": st.Op, "mw": st.Mw}
 			if st.Op == "enter" {
 				ev["prefix"] = st.Prefix
+				ev["common"] = st.Common
 			}
 			if st.Op == "ruse" {
 				ev["route"] = st.Route
@@ -88,10 +124,14 @@ func (x *regExec) run(prog []regStmt, i int) int {
 		case "enter":
 			next := 0
 			body := func() { next = x.run(prog, i+1) }
+			gmw := x.mws(pos, st.Mw)
+			if st.Common {
+				gmw = x.commonList()[:st.Mw] // a prefix of the caller's list, with spare capacity behind it
+			}
 			if x.useCtl && pos%2 == 0 {
-				x.r.Controller(tokStr(st.Prefix), ctrlFunc(func(*rux.Router) { body() }), x.mws(pos, st.Mw)...)
+				x.r.Controller(tokStr(st.Prefix), ctrlFunc(func(*rux.Router) { body() }), gmw...)
 			} else {
-				x.r.Group(tokStr(st.Prefix), body, x.mws(pos, st.Mw)...)
+				x.r.Group(tokStr(st.Prefix), body, gmw...)
 			}
 			i = next
 			continue
@@ -125,19 +165,37 @@ func regReplay(s *Summary, raw json.RawMessage) {
 		fatal("bad reg case: %v", err)
 	}
 	s.sample(c)
-	for _, useCtl := range []bool{false, true} {
+	for variant := 0; variant < 3; variant++ {
+		useCtl := variant == 1
 		log := [][]any{}
 		x := &regExec{r: rux.New(), log: &log, useCtl: useCtl}
+		if variant == 2 {
+			x.offs = map[int]int{}
+			x.shared = []rux.HandlerFunc{}
+			for i, st := range c.Prog {
+				x.offs[i+1] = len(x.shared)
+				for k := 1; k <= st.Mw; k++ {
+					x.shared = append(x.shared, x.handler(i+1, k))
+				}
+			}
+		}
 		var pan any
 		func() {
 			defer func() { pan = recover() }()
 			x.run(c.Prog, 0)
 		}()
 		desc := func(aspect, what string) map[string]any {
-			return map[string]any{"kind": "reg", "aspect": aspect, "controller": useCtl, "what": what}
+			if variant == 2 {
+				what = "[middleware passed as sub-slices of one shared list] " + what
+			}
+			return map[string]any{"kind": "reg", "aspect": aspect, "controller": useCtl, "shared_list": variant == 2, "what": what}
 		}
 		if pan != nil {
 			s.mismatch(desc("registration-panic", fmt.Sprintf("program %v panicked: %v", progText(c.Prog), pan)), c)
+			return
+		}
+		if ok, why := x.callerListIntact(); !ok {
+			s.mismatch(desc("caller-list", fmt.Sprintf("program %v: %s", progText(c.Prog), why)), c)
 			return
 		}
 		if len(x.routes) != len(c.Routes) {
@@ -192,7 +250,11 @@ func progText(p []regStmt) string {
 	for _, st := range p {
 		switch st.Op {
 		case "enter":
-			out += fmt.Sprintf("Group(%q,mw=%d){ ", tokStr(st.Prefix), st.Mw)
+			if st.Common {
+				out += fmt.Sprintf("Group(%q,common[:%d]...){ ", tokStr(st.Prefix), st.Mw)
+			} else {
+				out += fmt.Sprintf("Group(%q,mw=%d){ ", tokStr(st.Prefix), st.Mw)
+			}
 		case "exit":
 			out += "} "
 		case "use":
@@ -225,7 +287,11 @@ func regRecord(s *Summary, rng *rand.Rand, n int, out *traceWriter) {
 		for len(prog) < length {
 			switch x := rng.Intn(10); {
 			case x < 2 && depth < 5:
-				prog = append(prog, regStmt{Op: "enter", Prefix: prefixes[rng.Intn(len(prefixes))], Mw: rng.Intn(3)})
+				st := regStmt{Op: "enter", Prefix: prefixes[rng.Intn(len(prefixes))], Mw: rng.Intn(3)}
+				if rng.Intn(3) == 0 {
+					st.Common, st.Mw = true, 1+rng.Intn(3)
+				}
+				prog = append(prog, st)
 				depth++
 			case x < 4 && depth > 0:
 				prog = append(prog, regStmt{Op: "exit"})
